@@ -251,6 +251,45 @@ fn build_damaged(case: &Case, dir: &std::path::Path) -> Result<(std::path::PathB
                         "gzip CRC32 overwritten".to_string()
                     }
                 }
+            } else if data.len() >= 32 && data[..6] == [0xFD, b'7', b'z', b'X', b'Z', 0] {
+                // xz: the first block header starts at offset 12: size byte, flags, optional compressed and
+                // uncompressed sizes as variable-length integers, filter flags, padding, CRC32 of the header
+                let hsz = (data[12] as usize + 1) * 4;
+                let what = match field % 4 {
+                    0 => {
+                        data[13] |= 0x80;
+                        for b in data[14..22].iter_mut() {
+                            *b = 0xFF;
+                        }
+                        data[22] = 0x7F;
+                        "uncompressed size = 2^63-1"
+                    }
+                    1 => {
+                        data[13] |= 0x40;
+                        for b in data[14..22].iter_mut() {
+                            *b = 0xFF;
+                        }
+                        data[22] = 0x7F;
+                        "compressed size = 2^63-1"
+                    }
+                    2 => {
+                        data[12] = 0xFF;
+                        "header size = 1024"
+                    }
+                    _ => {
+                        data[13] |= 0x03;
+                        "four filters"
+                    }
+                };
+                if kind % 2 == 0 && 12 + hsz <= data.len() && hsz >= 8 {
+                    let mut crc = flate2::Crc::new();
+                    crc.update(&data[12..12 + hsz - 4]);
+                    let c = crc.sum().to_le_bytes();
+                    data[12 + hsz - 4..12 + hsz].copy_from_slice(&c);
+                    format!("xz block header: {} (header CRC recomputed)", what)
+                } else {
+                    format!("xz block header: {}", what)
+                }
             } else {
                 for (k, b) in data.iter_mut().take(16).enumerate() {
                     if k as u8 % 3 == kind % 3 {
@@ -272,7 +311,7 @@ impl Property for C07 {
         "C07"
     }
     fn rule(&self) -> String {
-        "case = a valid starting file of every kind (generated text log or accounting-record file in plain/gz/bz2/xz/lz4/tar; shipped evtx, journals and their gz/xz/bz2/lz4/tar forms; random byte strings of lengths {0,1,5,6,7,8,11,12,63,64,65,384,4096,70000} under log-like names) x fault (truncation inside the first 16 bytes / the last 16 bytes (trailers, size fields) / anywhere; 1..8 corrupted bytes in the same regions; up to 4 KiB filled with 0x00 or 0xFF; valid content stored under a mismatching name such as text as x.journal, records as x.evtx.gz, gz as x.tar; format-aware header damage that keeps the container's own checks valid: a tar member header field set to an extreme value with the checksum recomputed, gzip MTIME/XFL/OS/flag bits/ISIZE/CRC) x 0..3 well-formed neighbour text sources x position of the damaged file among the arguments. oracle: exit status 0 or 1, no fatal signal, no `panicked at` on stderr, ends within the watchdog (a stalled process is a deadlock), and the lines attributed (through -n) to the neighbours equal the neighbours' reference merge, complete and in order. non-trivial = the fault changes what s4 reports (stderr or stdout differs from the fault-free run of the same base) and >= 1 neighbour is present; distinct = hash(case).".into()
+        "case = a valid starting file of every kind (generated text log or accounting-record file in plain/gz/bz2/xz/lz4/tar; shipped evtx, journals and their gz/xz/bz2/lz4/tar forms; random byte strings of lengths {0,1,5,6,7,8,11,12,63,64,65,384,4096,70000} under log-like names) x fault (truncation inside the first 16 bytes / the last 16 bytes (trailers, size fields) / anywhere; 1..8 corrupted bytes in the same regions; up to 4 KiB filled with 0x00 or 0xFF; valid content stored under a mismatching name such as text as x.journal, records as x.evtx.gz, gz as x.tar; format-aware header damage that keeps the container's own checks valid: a tar member header field set to an extreme value with the checksum recomputed, gzip MTIME/XFL/OS/flag bits/ISIZE/CRC, xz block-header sizes and filter count with and without a recomputed header CRC) x 0..3 well-formed neighbour text sources x position of the damaged file among the arguments. oracle: exit status 0 or 1, no fatal signal, no `panicked at` on stderr, ends within the watchdog (a stalled process is a deadlock), and the lines attributed (through -n) to the neighbours equal the neighbours' reference merge, complete and in order. non-trivial = the fault changes what s4 reports (stderr or stdout differs from the fault-free run of the same base) and >= 1 neighbour is present; distinct = hash(case).".into()
     }
     fn assumptions(&self) -> Vec<String> {
         vec!["neighbour lines are recognised by their file-name prefix (-n); the damaged file has another name".into(), "coverage-guided fuzzing of the readers is a separate thorough-tier campaign (harness/fuzz)".into()]
